@@ -206,6 +206,24 @@ def inside_range(lo, hi, coords=None):
   return decide
 
 
+def _spring_kernel(I, fname, ndof, lk, j, jd, dof, tau):
+  """The per-joint spring force of ONE link: the kernel called directly when it has the (link, j, jd, dof, tau) signature,
+  otherwise through spring.joints.resolve's own per-type dispatcher (its nested j_fn, obtained by interpreting resolve up
+  to it) on a one-link batch -- however the dispatcher feeds the kernels."""
+  f = fn(SJ, fname)
+  a = f.node.args
+  if len(a.posonlyargs + a.args) == 5 and not a.kwonlyargs:
+    return I.apply(f, [lk, j, jd, dof, tau], {})
+  batch = lambda st: I.tree_map(('prim', 'lead', lambda v: asarr(v)[None]), st)
+  n1 = 1
+  sysd = symsys.system(str(ndof), (-1,))
+  st = symsys.state_maxcoord(n1)
+  j_fn, _ = avn.nested_fn_auto(I, SJ, 'resolve', 'j_fn', {'sys': sysd, 'state': st, 'tau': tau})
+  dofb = Struct('DoF', {'motion': dof.f['motion'], 'limit': dof.f['limit']})      # dof-shaped: (ndof, ...) for one link
+  out = I.apply(j_fn, [str(ndof), batch(lk), batch(j), batch(jd), dofb, tau], {})
+  return I.tree_map(('prim', 'first', lambda v: asarr(v)[0]), out)
+
+
 def spring_limits(U, rep, tier):
   for fname, ndof in (('_one_dof', 1), ('_two_dof', 2), ('_three_dof', 3)):
     def body():
@@ -226,7 +244,7 @@ def spring_limits(U, rep, tier):
       res = {}
       for lim in (True, False):
         dof = Struct('DoF', {'motion': motion, 'limit': (lo, hi) if lim else None})
-        res[lim] = I.apply(fn(SJ, fname), [lk, j, jd, dof, tau], {})
+        res[lim] = _spring_kernel(I, fname, ndof, lk, j, jd, dof, tau)
       return same(res[True], res[False])
     trials(rep, tier, 'R6.2', 'spring.joints.%s: limits inert inside the range' % fname,
            U.func('%s.%s' % (SJ, fname)).where(), '%s(limit | lo<q<hi) == %s(limit=None)' % (fname, fname),
@@ -685,3 +703,7 @@ def run(U, rep, tier):
   generalized_limits(U, rep)
   push_only(U, rep)
   spring_restitution(U, rep, tier)
+  # R6.6: limits whose range does not contain 0 are inert for a system at rest inside them -- the quantity a limit must
+  # NOT act on (a slide's rotation angle, a hinge's offset) is 0, outside such a range (shared with C04 R4.5)
+  from braxlint.props import c04
+  c04.rest(U, rep, tier, rule='R6.6', backends=('spring', 'positional'))
